@@ -106,6 +106,7 @@ class Run:
         self.spin = False
         self.nwaits = 0
         self.zombie_alive = False
+        self.expired_in_a_row = 0
 
     def ev(self, *a):
         with self.lock:
@@ -167,6 +168,15 @@ def _ensure_future(coro, *, loop=None):
     return task
 
 
+EXPIRY_LIMIT = 3
+
+
+def _expire(R):
+    """Does this timed wait expire with nothing finished?  Yes, up to EXPIRY_LIMIT times in a row (fairness)."""
+    R.expired_in_a_row += 1
+    return R.expired_in_a_row <= EXPIRY_LIMIT
+
+
 def _choose(R, fs, mode):
     live = [t for t in R.tickets if t.handle in fs and not t.gate.is_set()]
     return R.script.choose(live, mode == cf.ALL_COMPLETED)
@@ -180,11 +190,14 @@ def _wait(fs, timeout=None, return_when=cf.ALL_COMPLETED):
     if getattr(tls, "run", None) is R:
         _count_wait(R)
     fs = set(fs)
-    if timeout is not None:
+    if timeout is not None and _expire(R):
         # tawazi passes no timeout; if a wait can time out, the adversarial environment lets it expire
-        # with nothing finished (the in-flight nodes simply keep running)
+        # with nothing finished (the in-flight nodes simply keep running) -- a bounded number of times in a row:
+        # every node finishes eventually, so a scheduler that polls is not starved for ever
         R.ev("wait", "conc", return_when, tuple(sorted(t.id for t in R.tickets if t.handle in fs)), (), "timeout")
         return _real_wait(fs, 0, return_when)
+    R.expired_in_a_row = 0
+    timeout = None
     # tickets released early (while an inline node ran) are done already: this wait reports them whatever else it does
     already = [t for t in R.tickets if t.handle in fs and t.gate.is_set()]
     chosen = [] if (already and return_when != cf.ALL_COMPLETED) else _choose(R, fs, return_when)
@@ -205,10 +218,12 @@ async def _await(fs, *, timeout=None, return_when=asyncio.ALL_COMPLETED):
     if getattr(tls, "run", None) is R:
         _count_wait(R)
     fs = set(fs)
-    if timeout is not None:
+    if timeout is not None and _expire(R):
         R.ev("wait", "async", return_when, tuple(sorted(t.id for t in R.tickets if t.handle in fs)), (), "timeout")
         await asyncio.sleep(0)
         return await _real_await(fs, timeout=0, return_when=return_when)
+    R.expired_in_a_row = 0
+    timeout = None
     chosen = _choose(R, fs, return_when)
     R.ev("wait", "async", return_when,
          tuple(sorted(t.id for t in R.tickets if t.handle in fs)), tuple(sorted(t.id for t in chosen)))
